@@ -260,6 +260,36 @@ WAVENUMA = "wavespectra.core.utils:wavenuma"
 # contracts
 
 
+def own_position_only(c, da, result, pos, extra=None, recompute=None):
+    """C06 frame obligation: the result at pos reads the spectrum only at pos"""
+    if not c.m.symbolic:
+        # concrete twin: overwrite every OTHER position with different spectra and extract the
+        # single spectrum on its own; the result at pos must not change
+        V = View(da)
+        if recompute is None or not V.pos_dims:
+            return
+        import numpy as np
+
+        rng = np.random.default_rng(c.rng.randint(0, 2**31))
+        other = da.copy(deep=True)
+        noise = rng.uniform(0, 7, other.shape)
+        keep = other.isel(pos).values.copy()
+        other.values[...] = noise
+        other.loc[{d: other[d].values[pos[d]] for d in V.pos_dims}] = keep
+        r2 = recompute(other)
+        single = da.isel({d: [pos[d]] for d in V.pos_dims})
+        r3 = recompute(single)
+        zero = {d: 0 for d in V.pos_dims}
+        c.ensure_eq("reads_only_own_position", c.value(r2, dict(pos, **(extra or {}))), c.value(result, dict(pos, **(extra or {}))))
+        c.ensure_eq("reads_only_own_position", c.value(r3, dict(zero, **(extra or {}))), c.value(result, dict(pos, **(extra or {}))))
+        return
+    V = View(da)
+    axes = tuple(da.dims.index(d) for d in V.pos_dims)
+    pidx = tuple(pos[d] for d in V.pos_dims)
+    val = c.value(result, dict(pos, **(extra or {})))
+    c.footprint("reads_only_own_position", val, pos, [(da.data._uf, axes, pidx)])
+
+
 @contract(DD, props=["C01", "C05"], scenarios=SC_ALL, stub=property(stub_dd))
 def v_dd(c, dims):
     da = c.spectrum(dims)
@@ -299,6 +329,7 @@ def _scalar_contract(name, spec, uses, scen=SC_ALL, props=("C01", "C06"), stub=N
         pos = c.position(V)
         c.ensure_dims("dims", r, V.pos_dims)
         c.ensure_eq("defining_sum", c.value(r, pos), spec(c.m, V, pos, **kw))
+        own_position_only(c, da, r, pos, recompute=lambda d2: c.call(d2.spec, **kw))
 
     verify.__name__ = "v_" + name
     contract(q, props=list(props), scenarios=scenarios, uses=uses, stub=stub)(verify)
